@@ -7,6 +7,7 @@ import (
 	"crypto/ecdsa"
 	"crypto/elliptic"
 	"crypto/rand"
+	"crypto/rsa"
 	"crypto/sha1"
 	"crypto/x509"
 	"crypto/x509/pkix"
@@ -26,7 +27,7 @@ import (
 )
 
 func TestMain(m *testing.M) {
-	h.Main(m, ref.SelfTestSM3, ref.SelfTestSM2, selfTestDER, selfTestFixtures)
+	h.Main(m, ref.SelfTestSM3, ref.SelfTestSM2, selfTestDER, selfTestFixtures, selfTestCipherTable)
 }
 
 // ---------------------------------------------------------------- randomness
@@ -242,11 +243,17 @@ func fix() *fixtures {
 			add(&ident{name: "rsa-5", kind: "rsa", key: k, cert: c, root: rsaRoot})
 		}
 
+		{
+			k := parseRSA(rsa2048LeafPEM)
+			c := mkCert(47, certOpts{serial: next(), cn: "rsa 2048"}, &k.PublicKey, rsaRoot, rsaRootK)
+			add(&ident{name: "rsa-2048", kind: "rsa", key: k, cert: c, root: rsaRoot})
+		}
+
 		// ECDSA hierarchy
 		ecRootK := ecKey(elliptic.P256(), 0xC16_0300)
 		ecRoot := mkCert(50, certOpts{serial: next(), cn: "ec root", isCA: true}, &ecRootK.PublicKey, nil, ecRootK)
 		add(&ident{name: "ec-root", kind: "ecdsa", key: ecRootK, cert: ecRoot, root: ecRoot})
-		for i, c := range []elliptic.Curve{elliptic.P256(), elliptic.P384(), elliptic.P521(), elliptic.P256()} {
+		for i, c := range []elliptic.Curve{elliptic.P256(), elliptic.P384(), elliptic.P521(), elliptic.P256(), elliptic.P224()} {
 			k := ecKey(c, 0xC16_0310+uint64(i))
 			crt := mkCert(51+uint64(i), certOpts{serial: next(), cn: fmt.Sprintf("ec %d", i)}, &k.PublicKey, ecRoot, ecRootK)
 			add(&ident{name: fmt.Sprintf("ec-%d", i), kind: "ecdsa", key: k, cert: crt, root: ecRoot})
@@ -333,3 +340,18 @@ var _ = h.Seed
 
 func xOf(i *ident) *big.Int { return i.cert.PublicKey.(*ecdsa.PublicKey).X }
 func yOf(i *ident) *big.Int { return i.cert.PublicKey.(*ecdsa.PublicKey).Y }
+
+// keyType names the signer / recipient key type of an identity: sm2, rsa1024,
+// rsa2048, p224, p256, p384, p521.
+func keyType(i *ident) string {
+	switch k := i.cert.PublicKey.(type) {
+	case *rsa.PublicKey:
+		return fmt.Sprintf("rsa%d", k.N.BitLen())
+	case *ecdsa.PublicKey:
+		if i.kind == "sm2" {
+			return "sm2"
+		}
+		return fmt.Sprintf("p%d", k.Curve.Params().BitSize)
+	}
+	return "?"
+}
